@@ -647,12 +647,14 @@ def c11(pid, tier, seed, t0):
     fam = verdicts.above_n_family()
     vfile = verdicts.save("C11v", fam)
     vev = []
-    units = [verdicts.decl_unit(d) for d in fam]
-    vbuilds = verdicts.batch_build("v-c11", units, "dev")
-    for d, u in zip(fam, units):
-        vev.append({"ev": "dverdict", "decl": d["id"], "macro_profile": "dev", "accepted": bool(u.compiles),
-                    "in_decl": True if u.compiles else verdicts.in_decl(u),
-                    "source": "\n".join(rustgen.decl_source(d)), "diagnostic": (u.diag or {}).get("rendered", "")})
+    # with a dev-built AND a release-built macro (no overflow checks inside the macro's own arithmetic)
+    for profile in ("dev", "release"):
+        units = [verdicts.decl_unit(d) for d in fam]
+        vbuilds = verdicts.batch_build("v-c11", units, profile)
+        for d, u in zip(fam, units):
+            vev.append({"ev": "dverdict", "decl": d["id"], "macro_profile": profile, "accepted": bool(u.compiles),
+                        "in_decl": True if u.compiles else verdicts.in_decl(u),
+                        "source": "\n".join(rustgen.decl_source(d)), "diagnostic": (u.diag or {}).get("rendered", "")})
     vstates, known = verdicts.validate_events(pid, "v-c11", vev, vfile, fam,
                                               lambda ev: "%s:u%d:%s" % ("accept" if ev["accepted"] else "reject", fam[ev["decl"]]["n"], rustgen.attr_text(fam[ev["decl"]]["fields"][0]).replace(" ", "")))
     for line in known:
@@ -662,7 +664,7 @@ def c11(pid, tier, seed, t0):
     # on the real objects, raw value AND storage integer compared after every step
     SIMS["C11"] = sim_leg(pid, tier, seed, "rt-c11", decls, declfile, q(tier, 40, 600), q(tier, 25, 50))
     sym(pid, decls, ops=("with", "set"))
-    mc.append({"config": "verdict events (layouts reaching above bit N-1 on 13 arbitrary-int bases, with controls) validated against Decl!Valid",
+    mc.append({"config": "verdict events (layouts reaching above bit N-1 on 13 arbitrary-int bases incl. arrays whose first element is above N-1, with controls; dev- and release-built macro) validated against Decl!Valid",
                "distinct": vstates, "generated": len(vev), "wall_s": 0})
     finish(pid, tier, seed, t0, mc, legs,
            "every arbitrary-int base of all corpora: after every write raw_value() (a panic is a violation), the STORAGE integer "
